@@ -227,6 +227,7 @@ pub fn gen_step(s: &mut Pool2, rng: &mut Rng, ctx: &mut Ctx) -> Step {
             Op::Swap { side, amount, belief, max_spread, to }
         }
         3 => Op::Collect,
+        4 if rng.chance(1, 4) => Op::SetCollector { second: rng.chance(1, 2) },
         4 => {
             // reuse the fee generator through a scratch cfg
             let mut r2 = Rng::new(rng.next_u64());
@@ -291,7 +292,7 @@ pub fn gen_step(s: &mut Pool2, rng: &mut Rng, ctx: &mut Ctx) -> Step {
     };
     // faults only on ops with sub-messages
     let fault = match op {
-        Op::SetFees { .. } | Op::Donate { .. } | Op::RoundTrip { .. } | Op::DepositWithdraw { .. } => Fault::None,
+        Op::SetFees { .. } | Op::SetCollector { .. } | Op::Donate { .. } | Op::RoundTrip { .. } | Op::DepositWithdraw { .. } => Fault::None,
         _ => fault,
     };
     Step { actor, op, adv, fault }
@@ -403,7 +404,7 @@ pub fn simplify(step: &Step) -> Vec<Step> {
                 push(Op::SetFees { fees: ["0".into(), "0".into(), "0".into()] }, step.adv, step.fault);
             }
         }
-        Op::Collect | Op::WithdrawDirect { .. } => {}
+        Op::Collect | Op::WithdrawDirect { .. } | Op::SetCollector { .. } => {}
     }
     out
 }
